@@ -122,6 +122,10 @@ def gen_args(rng, f, malformed_rate=0.15):
             vals[p] = rng.choice([Fr(0), Fr(0), dyadic(rng, 0, 1, 3), dyadic(rng, 0, 30, 1)])
         elif p == 'angle':
             vals[p] = dyadic(rng, -20, 20, 3)
+        elif t == ('opt', 'Q'):
+            vals[p] = rng.choice([None, Fr(-rng.randint(1, 9))])
+        elif t == ('opt', 'Z'):
+            vals[p] = rng.choice([None, rng.randint(1, 9)])
         elif t == 'Q':
             vals[p] = dyadic(rng, -4, 4, 3)
         elif t == 'Z':
